@@ -302,3 +302,21 @@ func (p *Prog) NumFuncs() int {
 	}
 	return len(p.ModuleFuncs())
 }
+
+// TPkgPath returns the type-checked package with the given import path (a dependency of the module), or nil.
+func (p *Prog) TPkgPath(path string) *types.Package {
+	for _, pkg := range p.Pkgs {
+		if pkg.Types != nil && pkg.Types.Path() == path {
+			return pkg.Types
+		}
+		for _, imp := range pkg.Imports {
+			if imp.Types != nil && imp.Types.Path() == path {
+				return imp.Types
+			}
+		}
+	}
+	if sp := p.SSAPkgs[path]; sp != nil {
+		return sp.Pkg
+	}
+	return nil
+}
